@@ -415,7 +415,7 @@ func TestVX_C09(t *testing.T) {
 		jobs = append(jobs, fam...)
 	}
 	rep.Count("jobs_total", int64(len(jobs)))
-	deadline := mc.Deadline(75*time.Second, 13*time.Minute)
+	deadline := mc.Deadline(4*time.Minute, 13*time.Minute)
 	var wg sync.WaitGroup
 	work := make(chan vxJob)
 	var capped atomic.Bool
@@ -436,7 +436,19 @@ func TestVX_C09(t *testing.T) {
 		}()
 	}
 	n := 0
-	for ji, j := range jobs {
+	// dispatch order: the small families first (keeps-regulating runs, fault pairs, persistent faults), then the bulk of single
+	// faults, so that a deadline hit on a slow machine cuts the bulk and not a whole family
+	var order []int
+	for pass := 0; pass < 2; pass++ {
+		for ji, j := range jobs {
+			small := j.TempStepTo != 0 || len(j.Faults) != 1 || j.Faults[0].Persist
+			if small == (pass == 0) {
+				order = append(order, ji)
+			}
+		}
+	}
+	for _, ji := range order {
+		j := jobs[ji]
 		if !mc.Mine(ji) {
 			continue
 		}
